@@ -154,11 +154,11 @@ def decompress_code(codedata):
     code = bytes(out[:out_i])
     if code.endswith(PICO8_FUTURE_CODE1):
         code = code[:-len(PICO8_FUTURE_CODE1)]
-        if code[-1] == b'\n'[0]:
+        if code.endswith(b'\n'):
             code = code[:-1]
     if code.endswith(PICO8_FUTURE_CODE2):
         code = code[:-len(PICO8_FUTURE_CODE2)]
-        if code[-1] == b'\n'[0]:
+        if code.endswith(b'\n'):
             code = code[:-1]
 
     compressed_size = in_i
